@@ -24,6 +24,7 @@ type cacheStep struct {
 	List  []string     `json:"list"`
 	DLen  int          `json:"dlen"`
 	TLen  int          `json:"tlen"`
+	ILen  int          `json:"ilen"`
 	Qs    []cacheQuery `json:"qs"`
 	Panic string       `json:"panic,omitempty"`
 }
@@ -68,6 +69,7 @@ func cacheRun(c *cacheCase) {
 			st.List = idsOf(cache.Find([]*mocrelay.ReqFilter{{}}))
 			st.DLen = mocrelay.VerifCacheDeletedLen(cache)
 			st.TLen = mocrelay.VerifCacheTreeLen(cache)
+			st.ILen = mocrelay.VerifCacheIndexLen(cache)
 			for j := range st.Qs {
 				st.Qs[j].Out = idsOf(cache.Find(common.ToFilters(st.Qs[j].Fs)))
 			}
@@ -116,13 +118,27 @@ func cacheGenPool(r *common.Rand, n int, mode string) (map[string]common.JEvent,
 				e.Tags = append(e.Tags, []string{"long", "x"})
 			}
 		}
+		// a repeated single-letter tag whose value nobody else carries, followed by a further tag:
+		// the index key of the repetition is met twice when the event leaves the store
+		if r.Chance(18) {
+			u := "u" + strconv.Itoa(i)
+			name := common.Pick(r, []string{"p", "t"})
+			e.Tags = append(e.Tags, []string{name, u}, []string{name, u}, []string{"t", common.Pick(r, []string{"x", "y"})})
+			if r.Chance(30) {
+				e.Tags = append(e.Tags, []string{"p", common.Pick(r, cacheAuthors)})
+			}
+		}
 		if e.Kind >= 30000 && e.Kind < 40000 {
-			switch r.Intn(10) {
+			switch r.Intn(12) {
 			case 0: // no d tag at all
 			case 1:
 				e.Tags = append(e.Tags, []string{"d"})
 			case 2:
 				e.Tags = append(e.Tags, []string{"d", common.Pick(r, dvals)}, []string{"d", common.Pick(r, dvals)})
+			case 3: // the first d tag has no value (d = ""), a later one has
+				e.Tags = append(e.Tags, []string{"d"}, []string{"d", common.Pick(r, []string{"a", "b"})})
+			case 4: // a valueless or empty first d tag after another tag
+				e.Tags = append(e.Tags, []string{"t", "x"}, []string{"d", ""}, []string{"d", common.Pick(r, []string{"a", "b"})})
 			default:
 				e.Tags = append(e.Tags, []string{"d", common.Pick(r, dvals)})
 			}
@@ -199,9 +215,9 @@ func cacheGenFilter(r *common.Rand, ids []string, sel int) common.JFilter {
 		}
 		f.Kinds = &ks
 	}
-	if r.Chance(sel) {
+	if r.Chance(sel + 15) {
 		tcs := []common.JTagCond{}
-		names := []string{"t", "p", "d", "e", "a"}
+		names := []string{"t", "p", "t", "p", "d", "e", "a"}
 		for k := 1 + r.Intn(2); k > 0 && len(names) > 0; k-- {
 			i := r.Intn(len(names))
 			var vals []string
@@ -218,7 +234,14 @@ func cacheGenFilter(r *common.Rand, ids []string, sel int) common.JFilter {
 				vals = []string{"30000:" + common.Pick(r, cacheAuthors) + ":" + common.Pick(r, []string{"", "a", "b"})}
 			}
 			tcs = append(tcs, common.JTagCond{Name: names[i], Vals: vals})
-			names = append(names[:i], names[i+1:]...)
+			picked := names[i]
+			var rest []string
+			for _, nm := range names {
+				if nm != picked {
+					rest = append(rest, nm)
+				}
+			}
+			names = rest
 		}
 		f.Tags = &tcs
 	}
